@@ -86,6 +86,10 @@ class Center:
         else:
             res = self.offset
 
+        if hasattr(res, "form"):
+            # The rotation applies to cartesian coordinates
+            res = res.copy(form="cartesian")
+
         return self.orientation.convert_to(date, orientation) @ res
 
 
